@@ -11,6 +11,12 @@ pub fn verif_root() -> PathBuf {
     PathBuf::from(std::env::var("VERIF_ROOT").unwrap_or_else(|_| "/verif".to_string()))
 }
 
+/// Where evidence and replay files go: /verif, unless a tool that runs the checks against a scratch copy (tools/sweep_patches.sh)
+/// redirects them with VERIF_OUT so that the registered evidence of the real tree is not overwritten.
+pub fn out_root() -> PathBuf {
+    match std::env::var("VERIF_OUT") { Ok(p) if !p.is_empty() => PathBuf::from(p), _ => verif_root() }
+}
+
 #[derive(Clone, Debug)]
 pub struct Violation {
     pub property: String,
@@ -89,7 +95,7 @@ impl Evidence {
             "wall_s": (wall * 1000.0).round() / 1000.0,
             "violations": violations,
         });
-        let dir = verif_root().join("evidence");
+        let dir = out_root().join("evidence");
         let _ = std::fs::create_dir_all(&dir);
         let path = dir.join(format!("{}.json", self.property));
         let text = serde_json::to_string_pretty(&doc).unwrap();
@@ -171,7 +177,7 @@ pub fn matches_known(k: &KnownFinding, v: &Violation) -> bool {
 // Final reporting: prints KNOWN-FINDING / VIOLATION lines, writes replay files, returns exit code.
 
 pub fn write_replay(v: &Violation) -> PathBuf {
-    let dir = verif_root().join("replays");
+    let dir = out_root().join("replays");
     let _ = std::fs::create_dir_all(&dir);
     let doc = json!({
         "property": v.property,
